@@ -106,9 +106,24 @@ def main():
                 count("cgr_cases")
         # lifetime: force collection and allocator churn, then drain the iterators built from temporaries
         gc.collect()
-        junk = [bytearray(b"T" * 4096) for _ in range(20000)]
+        # churn the allocator with objects of the same size classes as the released strings (small-object arenas
+        # are reused size class by size class), then with large blocks
+        junk = []
+        for rounds in range(3):
+            for n in range(1, 96):
+                junk.extend(("TN"[rounds % 2] * n + str(i))[:n + 1] for i in range(400))
+                junk.extend((b"TN"[rounds % 2:rounds % 2 + 1] * n) + bytes([i % 251]) for i in range(400))
+        big = [bytearray(b"T" * 4096) for _ in range(5000)]
         del junk
+        del big
         gc.collect()
+        junk = ["N" * n + str(i) for n in range(1, 96) for i in range(300)]
+        # the extension allocates its own copies with the system allocator: churn that heap too, with buffers of the
+        # same sizes as the kept iterators' inputs but different content
+        for rounds in range(4):
+            tmp = [pk.KmerGenerator("T" * n, 1) for n in range(1, 80) for _ in range(40)]
+            tmp += [pk.MinimiserGenerator("G" * n, 1, 1) for n in range(1, 80) for _ in range(40)]
+            del tmp
         for tag, it, exp, s, par in keep:
             rep["evaluations"] += 1
             if tag == "K":
